@@ -186,6 +186,12 @@ fn rel_close(x: f64, want: f64, tol: f64) -> bool {
     (x.is_infinite() && x == want) || util::close(x, want, tol)
 }
 
+/// closeness relative to the magnitude of the value itself (payoff scaling moves everything to another
+/// order of magnitude)
+fn scale_close(x: f64, want: f64, tol: f64, unit: f64) -> bool {
+    x == want || (x - want).abs() <= tol * unit * f64::max(1.0, (want / unit).abs())
+}
+
 /// what the evaluation of the transformed game must be, given the original one: [util, r1, r2, total]
 fn related_eval(kind: &str, c: f64, e: &[f64; 4]) -> [f64; 4] {
     match kind {
@@ -238,14 +244,16 @@ fn compare_solves(kind: &str, c: f64, a: &Solved, b: &Solved, tol: f64, label: &
             }
         }
         let want = if kind == "scale" { c * a.bounds[pl] } else { a.bounds[pl] };
-        if !rel_close(b.bounds[q], want, tol) {
+        let bound_ok = if kind == "scale" { scale_close(b.bounds[q], want, tol, c) || rel_close(b.bounds[q], want, 0.0) } else { rel_close(b.bounds[q], want, tol) };
+        if !bound_ok {
             bad.push(json!({"class": "bound", "what": "regret bounds of two presentations are not related as stated", "run": label,
                 "player": pl + 1, "original": a.bounds[pl], "transformed": b.bounds[q]}));
         }
     }
     let want = related_eval(kind, c, &a.info);
     for j in 0..4 {
-        if !util::close(b.info[j], want[j], tol * 10.0) {
+        let ok = if kind == "scale" { scale_close(b.info[j], want[j], tol * 10.0, c) } else { util::close(b.info[j], want[j], tol * 10.0) };
+        if !ok {
             bad.push(json!({"class": "solved-eval", "what": "utility / regrets of the solutions of two presentations are not related as stated",
                 "run": label, "index": j, "original": a.info[j], "transformed": b.info[j]}));
         }
@@ -358,6 +366,25 @@ pub fn replay(args: &Args) {
                     (x, y) => bad.push(json!({"class": "panic", "what": "solve failed or panicked", "run": format!("{name} T={b}"),
                         "original": x.err(), "transformed": y.err()})),
                 }
+            }
+        }
+        // ---- payoff scaling by powers of two (exact in binary floating point): the relation of
+        // Transform.tla's "scale" far outside the number range of the exact model; both sides perform the
+        // same operations on scaled numbers, so strategies must agree to the last bits
+        for (ei, e) in [-80i32, 60].into_iter().enumerate() {
+            let c2 = 2f64.powi(e);
+            let mut scaled = t.clone();
+            scaled.map_pay(&mut |p| Num::F(p.f() * c2));
+            let name = PRESETS[(id as usize + ei) % 5];
+            let b = [2u64, 7, 40][(id as usize + ei) % 3];
+            let par = cfr::preset(name);
+            match (solve(&t, &par, b), solve(&scaled, &par, b)) {
+                (Ok(x), Ok(y)) => {
+                    runs += 1;
+                    compare_solves("scale", c2, &x, &y, 1e-13, &format!("{name} T={b} payoffs x 2^{e}"), &mut bad);
+                }
+                (x, y) => bad.push(json!({"class": "panic", "what": "solve failed or panicked", "run": format!("{name} T={b} payoffs x 2^{e}"),
+                    "original": x.err(), "transformed": y.err()})),
             }
         }
         if bad.is_empty() {
